@@ -1,8 +1,258 @@
-"""sympy namespace model (assumed contracts, DESIGN.md 2.4); grown by the C01/C03 contracts."""
+"""sympy model (assumed contracts on sympy, DESIGN.md 2.4).
+
+Expressions are terms of an uninterpreted sort Expr with ring constructors and a valuation
+val : Expr -> Real that is a ring homomorphism *for an arbitrary fixed point* (x, t, theta); an
+identity proved about val therefore holds identically in states, parameters and time.
+D(e, s) is the derivative of e with respect to the symbol s (sympy.diff is the derivative).
+Parse(name) is the expression a declaration string parses to (checkEquation is trusted)."""
+import ast
 import z3
+
 from .values import *  # noqa
+from .lib import SList, SArr, norm_index, dim_eq
+
+Expr = z3.DeclareSort('Expr')
+I, R, B = z3.IntSort(), z3.RealSort(), z3.BoolSort()
+e_add = z3.Function('e_add', Expr, Expr, Expr)
+e_mul = z3.Function('e_mul', Expr, Expr, Expr)
+e_neg = z3.Function('e_neg', Expr, Expr)
+e_num = z3.Function('e_num', R, Expr)
+val = z3.Function('val', Expr, R)
+D = z3.Function('D', Expr, Expr, Expr)
+Parse = z3.Function('Parse', I, Expr)
+StateSym = z3.Function('StateSym', I, Expr)
+ParamSym = z3.Function('ParamSym', I, Expr)
+InAtoms = z3.Function('InAtoms', Expr, Expr, B)
+AtomCount = z3.Function('AtomCount', Expr, I, I)
+ZERO = e_num(z3.RealVal(0))
+
+
+def axioms(it):
+    """ring-homomorphism axioms of val, asserted once per path"""
+    if ('sympy-axioms',) in it.ctx.covers:
+        return
+    it.ctx.covers.add(('sympy-axioms',))
+    it.ctx.note_trusted("sympy ring operations: val(a+b)=val a+val b, val(a*b)=val a*val b, val(-a)=-val a, val(number)=number, for every valuation")
+    a, b = z3.Const('ax_a', Expr), z3.Const('ax_b', Expr)
+    r = z3.Real('ax_r')
+    it.ctx.assume(z3.ForAll([a, b], val(e_add(a, b)) == val(a) + val(b), patterns=[e_add(a, b)]))
+    it.ctx.assume(z3.ForAll([a, b], val(e_mul(a, b)) == val(a) * val(b), patterns=[e_mul(a, b)]))
+    it.ctx.assume(z3.ForAll([a], val(e_neg(a)) == -val(a), patterns=[e_neg(a)]))
+    it.ctx.assume(z3.ForAll([r], val(e_num(r)) == r, patterns=[e_num(r)]))
+
+
+def to_expr(it, v):
+    if isinstance(v, SExpr):
+        return v.term
+    r = to_real(v)
+    if r is not None:
+        return e_num(r)
+    raise Unsupported("not a sympy expression: %r" % (v,))
+
+
+class SAtoms(Model):
+    def __init__(self, expr, types):
+        self.expr = expr
+        self.types = types
+
+    def py_len(self, it):
+        n = AtomCount(self.expr, z3.IntVal(sum(hash(getattr(t, 'name', str(t))) % 9973 for t in self.types)))
+        it.ctx.assume(n >= 0)
+        return n
+
+    def py_contains(self, it, item):
+        return InAtoms(self.expr, to_expr(it, item))
+
+    def py_iter(self, it):
+        raise Unsupported("iteration over atoms")
+
+
+class SExpr(Model):
+    tags = frozenset({'Expr', 'Basic'})
+
+    def __init__(self, term, extra_tags=()):
+        self.term = term
+        if extra_tags:
+            self.tags = frozenset(self.tags | set(extra_tags))
+
+    def __repr__(self):
+        return "SExpr(%s)" % self.term
+
+    def py_binop(self, it, op, other, refl):
+        axioms(it)
+        if isinstance(other, (SMatrix,)):
+            return NotImplemented
+        o = to_expr(it, other)
+        a, b = (o, self.term) if refl else (self.term, o)
+        if isinstance(op, ast.Add):
+            return SExpr(e_add(a, b))
+        if isinstance(op, ast.Sub):
+            return SExpr(e_add(a, e_neg(b)))
+        if isinstance(op, ast.Mult):
+            return SExpr(e_mul(a, b))
+        raise Unsupported("sympy operator %s" % type(op).__name__)
+
+    def py_unop(self, it, op):
+        axioms(it)
+        if isinstance(op, ast.USub):
+            return SExpr(e_neg(self.term))
+        return NotImplemented
+
+    def py_eq(self, it, other):
+        if isinstance(other, SExpr):
+            return self.term == other.term
+        r = to_real(other)
+        if r is not None:
+            return self.term == e_num(r)
+        return False
+
+    def py_truth(self, it):
+        return True
+
+    def py_getattr(self, it, name):
+        if name == 'atoms':
+            return Builtin('Expr.atoms', lambda it_, a, k: SAtoms(self.term, a))
+        if name == 'is_real':
+            return True
+        raise Unsupported("sympy expression attribute %s" % name)
+
+    def py_str(self, it):
+        return "<expr>"
+
+    def fresh_like(self, it, hint):
+        return SExpr(z3.Const(it.ctx._name(hint), Expr))
+
+
+class SMatrix(Model):
+    """sympy mutable dense matrix: shape and a z3 array (Int, Int) -> Expr"""
+    tags = frozenset({'MatrixBase', 'Matrix'})
+
+    def __init__(self, rows, cols, arr):
+        self.rows, self.cols, self.arr = rows, cols, arr
+
+    def __repr__(self):
+        return "SMatrix(%s x %s)" % (self.rows, self.cols)
+
+    def cell(self, i, j):
+        return z3.Select(self.arr, to_num(i), to_num(j))
+
+    def _index(self, it, idx):
+        if isinstance(idx, tuple):
+            if len(idx) != 2 or any(isinstance(x, slice) for x in idx):
+                raise Unsupported("matrix slice")
+            i = norm_index(it, idx[0], self.rows)
+            j = norm_index(it, idx[1], self.cols)
+        else:
+            k = norm_index(it, idx, to_num(self.rows) * to_num(self.cols))
+            if dim_eq(self.cols, 1) is True:
+                i, j = k, z3.IntVal(0)
+            elif dim_eq(self.rows, 1) is True:
+                i, j = z3.IntVal(0), k
+            else:
+                raise Unsupported("flat index into a matrix that is not known to be a vector")
+        it.ctx.oblige("safety/matrix-index-in-range", z3.And(i >= 0, i < to_num(self.rows), j >= 0, j < to_num(self.cols)))
+        return i, j
+
+    def py_getitem(self, it, idx):
+        i, j = self._index(it, idx)
+        return SExpr(z3.Select(self.arr, i, j))
+
+    def py_setitem(self, it, idx, v):
+        i, j = self._index(it, idx)
+        it.ctx.note_trusted("sympy matrix item assignment stores the expression at that cell only")
+        self.arr = z3.Store(self.arr, i, j, to_expr(it, v))
+
+    def py_len(self, it):
+        return z3.simplify(to_num(self.rows) * to_num(self.cols))
+
+    def py_iter(self, it):
+        if dim_eq(self.cols, 1) is True:
+            arr = self.arr
+            return SymIter(self.rows, lambda k: SExpr(z3.Select(arr, k, 0))) if not isinstance(self.rows, int) else \
+                [SExpr(z3.Select(arr, z3.IntVal(i), 0)) for i in range(self.rows)]
+        raise Unsupported("iteration over a matrix that is not known to be a column vector")
+
+    def py_binop(self, it, op, other, refl):
+        axioms(it)
+        if isinstance(other, SMatrix) and isinstance(op, ast.Add):
+            if dim_eq(self.rows, other.rows) is not True or dim_eq(self.cols, other.cols) is not True:
+                it.ctx.oblige("safety/matrix-sum-shapes", z3.And(to_num(self.rows) == to_num(other.rows), to_num(self.cols) == to_num(other.cols)))
+            i, j = z3.Int('mi'), z3.Int('mj')
+            a, b = self.arr, other.arr
+            return SMatrix(self.rows, self.cols, z3.Lambda([i, j], e_add(z3.Select(a, i, j), z3.Select(b, i, j))))
+        raise Unsupported("matrix operator %s" % type(op).__name__)
+
+    def py_getattr(self, it, name):
+        if name == 'rows':
+            return self.rows
+        if name == 'cols':
+            return self.cols
+        if name == 'shape':
+            return (self.rows, self.cols)
+        if name == 'jacobian':
+            def jac(it_, a, k):
+                it_.ctx.note_trusted("sympy Matrix.jacobian(vars)[i,j] = D(self[i], vars[j]) for a column vector self")
+                vs = a[0]
+                if dim_eq(self.cols, 1) is not True:
+                    raise Unsupported("jacobian of a non-vector")
+                n = it_.length(vs)
+                src = self.arr
+                i, j = z3.Int('ji'), z3.Int('jj')
+                if isinstance(vs, (list, tuple)):
+                    raise Unsupported("jacobian with a concrete variable list")
+                el = vs.element
+                return SMatrix(self.rows, n, z3.Lambda([i, j], D(z3.Select(src, i, 0), to_expr(it_, el(j)))))
+            return Builtin('Matrix.jacobian', jac)
+        if name == 'col_join':
+            def cj(it_, a, k):
+                it_.ctx.note_trusted("sympy Matrix.col_join(B): rows of self followed by rows of B")
+                o = a[0]
+                it_.ctx.oblige("safety/col_join-same-number-of-columns", to_num(self.cols) == to_num(o.cols))
+                i, j = z3.Int('ci'), z3.Int('cj')
+                r0 = to_num(self.rows)
+                a1, a2 = self.arr, o.arr
+                return SMatrix(z3.simplify(r0 + to_num(o.rows)), self.cols,
+                               z3.Lambda([i, j], z3.If(i < r0, z3.Select(a1, i, j), z3.Select(a2, i - r0, j))))
+            return Builtin('Matrix.col_join', cj)
+        if name == 'atoms':
+            raise Unsupported("Matrix.atoms")
+        raise Unsupported("sympy matrix attribute %s" % name)
+
+    def deepcopy(self):
+        return SMatrix(self.rows, self.cols, self.arr)
+
+    def fresh_like(self, it, hint):
+        return SMatrix(self.rows, self.cols, z3.Array(it.ctx._name(hint), I, I, Expr))
+
+    def havoc_inplace(self, it, hint):
+        self.arr = z3.Array(it.ctx._name(hint), I, I, Expr)
 
 
 def build(lib):
-    from .lib import Unmodelled_ns
-    return Unmodelled_ns('sympy')
+    def zeros(it, a, k):
+        axioms(it)
+        it.ctx.note_trusted("sympy.zeros(r, c): an r x c matrix of zeros")
+        r, c = a[0], (a[1] if len(a) > 1 else a[0])
+        return SMatrix(r, c, z3.K(I, z3.K(I, ZERO)) if False else z3.Lambda([z3.Int('zi'), z3.Int('zj')], ZERO))
+
+    def diff(it, a, k):
+        it.ctx.note_trusted("sympy.diff(e, s, 1) is the partial derivative D(e, s)")
+        n = a[2] if len(a) > 2 else 1
+        if n != 1:
+            raise Unsupported("higher-order diff")
+        return SExpr(D(to_expr(it, a[0]), to_expr(it, a[1])))
+    ns = {
+        'zeros': Builtin('sympy.zeros', zeros),
+        'diff': Builtin('sympy.diff', diff),
+        'Symbol': TypeTag('Symbol'),
+        'Expr': TypeTag('Expr'),
+        'exp': TypeTag('exp'), 'log': TypeTag('log'),
+    }
+
+    class SympyNS(Namespace):
+        def py_getattr(self, it, name):
+            if name in self.attrs:
+                return self.attrs[name]
+            from .interp import Unmodelled
+            return Unmodelled('sympy.' + name)
+    return SympyNS('sympy', ns)
